@@ -59,7 +59,8 @@ def entries():
         'area_BET': (lambda i, r: [c.area_BET(i)[k] for k in ('area', 'c_const', 'n_monolayer', 'p_monolayer', 'corr_coef')], 1e-6),
         'area_langmuir': (lambda i, r: [c.area_langmuir(i)[k] for k in ('area', 'langmuir_const', 'n_monolayer')], 1e-6),
         't_plot': (lambda i, r: [(x['area'], x['adsorbed_volume'], x['slope'], x['intercept']) for x in c.t_plot(i)['results']], 1e-6),
-        'alpha_s(sample converted)': (lambda i, r: [(x['area'], x['adsorbed_volume']) for x in c.alpha_s(i, r, reference_area='BET', t_limits=(0.3, 1.5))['results']], 1e-6),
+        'alpha_s(sample converted)': (lambda i, r: (lambda res: [v for x in res['results'] for v in (x['area'], x['adsorbed_volume'], x['slope'], x['intercept'])]
+                                                   + [float(v) for v in res['alpha_curve']])(c.alpha_s(i, r, reference_area='BET', t_limits=(0.3, 1.5))), 1e-6),
         'dr_plot': (lambda i, r: [c.dr_plot(i, p_limits=(0, 0.1))[k] for k in ('pore_volume', 'adsorption_potential')], 1e-6),
         'da_plot': (lambda i, r: [c.da_plot(i, exp=2.3, p_limits=(0, 0.1))[k] for k in ('pore_volume', 'adsorption_potential')], 1e-6),
         'psd_mesoporous.BJH': (lambda i, r: c.psd_mesoporous(i, psd_model='BJH')['pore_distribution'], 1e-6),
@@ -102,14 +103,19 @@ def reference_case(conv_name):
     """alpha-s with the *reference* isotherm converted"""
     import pygaps.characterisation as c
     iso, ref = _load('MCM-41 N2 77.355.json'), _load('SiO2 N2 77.355.json')
-    f = lambda r: [(x['area'], x['adsorbed_volume']) for x in c.alpha_s(_copy(iso), r, reference_area='BET', t_limits=(0.3, 1.5))['results']]
+    def f(r):
+        res = c.alpha_s(_copy(iso), r, reference_area='BET', t_limits=(0.3, 1.5))
+        return [v for x in res['results'] for v in (x['area'], x['adsorbed_volume'], x['slope'], x['intercept'])] + [float(v) for v in res['alpha_curve']]
     a = _flat(f(_ref_model(_copy(ref))))
     try:
         b = _flat(f(_ref_model(_converted(ref, dict(CONVERSIONS)[conv_name]))))
     except Exception as exc:
         return False, f"{type(exc).__name__}: {exc}"[:160]
-    ok = a.shape == b.shape and numpy.allclose(a, b, rtol=1e-6)
-    return bool(ok), '' if ok else f"before {a[:2]} after {b[:2]}"
+    # the reference handed to alpha_s is a BET model *re-fitted* to the converted reference data: the two fits agree to the
+    # optimiser's tolerance only (observed 5e-6 on the alpha curve), hence 2e-4 here
+    ok = a.shape == b.shape and numpy.allclose(a, b, rtol=2e-4)
+    worst = int(numpy.argmax(numpy.abs(a - b) / numpy.maximum(numpy.abs(a), 1e-300))) if a.shape == b.shape else 0
+    return bool(ok), '' if ok else f"entry {worst}: before {a[worst]} after {b[worst]}"
 
 
 def henry_case(conv_name):
